@@ -9,8 +9,8 @@ use pico_macros::memo;
 use prelude::{ErrClone, Postfix};
 
 use crate::{
-    CompilationProfile, EntrypointDeclarationInfo, IsographDatabase, flattened_entity_named,
-    parse_iso_literal_in_source, selectable_is_not_defined_diagnostic,
+    CompilationProfile, EntrypointDeclarationInfo, IsographDatabase, NetworkProtocol,
+    flattened_entity_named, parse_iso_literal_in_source, selectable_is_not_defined_diagnostic,
     selectable_is_wrong_type_diagnostic, selectable_named,
 };
 
@@ -63,6 +63,15 @@ pub fn validated_entrypoints<TCompilationProfile: CompilationProfile>(
                 )
                 .wrap_err(),
                 Some(DefinitionLocation::Client(SelectionType::Scalar(_))) => {
+                    TCompilationProfile::NetworkProtocol::get_query_root_entity(
+                        db,
+                        entrypoint_declaration_info.parent_type.item.0,
+                    )
+                    .map_err(|e| {
+                        let location = entrypoint_declaration_info.parent_type.location;
+                        Diagnostic::new(e.0.message, location.to::<Location>().wrap_some())
+                    })?;
+
                     Ok(EntrypointDeclarationInfo {
                         iso_literal_text: entrypoint_declaration_info.iso_literal_text,
                         directive_set: from_isograph_field_directives(
